@@ -279,6 +279,7 @@ func (s *wlOrderState) bigList(in []string, uncap int) {
 	kept, uncapModel := ref.Normalise(in)
 	uncap = uncapModel
 	in = kept
+	cal.Rep(uint32(len(kept)), 0)
 	for _, cp := range []string{"none", "one", "random", "all"} {
 		for _, L := range []int{1, 4} {
 			r := spg.NewWLRecipe(L, wl)
